@@ -132,18 +132,36 @@ __device__ __attribute__((noinline)) uint64_t w_binmul(uint64_t a, uint64_t b){ 
 '''
 
 def patch_cuda(text):
-    """Mechanical, documented text patch of a scratch copy of gl64_t.cuh so that clang's CUDA front end accepts it."""
-    diffs = []
-    out = []
-    for ln in text.split('\n'):
-        new = ln
-        if 'asm(' in ln and re.search(r'%(top|flag|set_z|sel_a)\b', ln):
-            # operand-less asm statements use single '%'; with operands clang needs '%%' for literal registers
-            new = re.sub(r'(?<!%)%(top|flag|set_z|sel_a)\b', r'%%\1', ln)
-        new2 = re.sub(r'"\+l"\(tmp\)\s+"=r"\(carry\)', '"+l"(tmp), "=r"(carry)', new)
-        if new2 != ln: diffs.append((ln.strip(), new2.strip()))
-        out.append(new2)
-    return '\n'.join(out), diffs
+    """Mechanical, documented text patch of a scratch copy of gl64_t.cuh so that clang's CUDA front end accepts it:
+       (1) in asm statements that have operands, literal PTX registers written with a single '%' (%top, %dif, ...; nvcc accepts them) become '%%name'
+           (clang follows the GCC rule that '%' must be doubled there); operand-less statements are left alone (there '%' is literal in both);
+       (2) a missing comma between two operands of one statement is added."""
+    diffs = []; out = []; pos = 0
+    for mm in re.finditer(r'\basm\s*(volatile\s*)?\(', text):
+        st = mm.end(); depth = 1; k = st; instr = False
+        while k < len(text) and depth:
+            c = text[k]
+            if instr:
+                if c == '\\': k += 1
+                elif c == '"': instr = False
+            else:
+                if c == '"': instr = True
+                elif c == '(': depth += 1
+                elif c == ')': depth -= 1
+            k += 1
+        body = text[st:k - 1]
+        # operands present?  a ':' outside the string literals
+        outside = re.sub(r'"(?:[^"\\\\]|\\\\.)*"', '""', body)
+        if ':' not in outside or mm.start() < pos: continue
+        def fix(lit):
+            return re.sub(r'(?<!%)%([A-Za-z_][A-Za-z_0-9]*)', r'%%\1', lit.group(0))
+        body2 = re.sub(r'"(?:[^"\\\\]|\\\\.)*"', fix, body)
+        # only the template part (before the first ':' outside strings) may be rewritten; constraint strings never contain such names, so this is safe
+        body2 = re.sub(r'"\+l"\(tmp\)\s+"=r"\(carry\)', '"+l"(tmp), "=r"(carry)', body2)
+        if body2 != body: diffs.append((' '.join(body.split())[:160], ' '.join(body2.split())[:160]))
+        out.append(text[pos:st]); out.append(body2); pos = k - 1
+    out.append(text[pos:])
+    return ''.join(out), diffs
 
 
 def build(verbose=False):
